@@ -89,7 +89,7 @@ def frag_ids(frag, out):
 class C03(PropCheck):
     id = 'C03'
     extractors = ()
-    modules = ('WpModel.Props.C03', 'WpModel.Props.C03Geo', 'WpModel.Props.C03Trace')
+    modules = ('WpModel.Props.C03', 'WpModel.Props.C03Geo', 'WpModel.Props.C03Trace', 'WpModel.Witness.C03')
     trusted_base = (
         'modelled, not verified: the block/line pagination functions of block.py and page.py as '
         'lean/WpModel/Model/Paginate.lean (see C01)',
@@ -109,8 +109,9 @@ class C03(PropCheck):
             'first-on-page/column flag are checked by the verified Lean checker against the page content box; '
             'the implementation side is the constant claim "ok"; non-trivial = a page with at least 2 items')
         docs.quiet()
-        for _ in range(run.n(80, 2500)):
-            for line, meta, tags in wide_trace.fits_cases(run.rng):
+        for k in range(run.n(80, 2500)):
+            focus = 'columns' if k % 8 == 7 else None      # spanning blocks that leave little room under them
+            for line, meta, tags in wide_trace.fits_cases(run.rng, focus=focus):
                 if line is None:
                     sec2.tags['render-error (C02)'] += 1
                     continue
